@@ -42,8 +42,12 @@ def const(tok):
 
 class Ctx:
 
-    def __init__(self, env=None, funs=None, dts=None):
+    def __init__(self, env=None, funs=None, dts=None, top=None):
         self.env = dict(env or {})
+        # the assignment of the declared symbols: SMT-LIB is statically
+        # scoped, the body of a defined function sees these and its formal
+        # parameters, never the let / quantifier bindings around the call
+        self.top = dict(env or {}) if top is None else top
         self.funs = dict(funs or {})  # name -> (formals, body)
         self.ctors = {}  # ctor -> (datatype, [selector names])
         self.sels = {}  # selector -> (ctor, index)
@@ -58,7 +62,14 @@ class Ctx:
                 self.sels[s] = (cname, i)
 
     def child(self, extra):
-        c = Ctx(self.env, self.funs)
+        c = Ctx(self.env, self.funs, top=self.top)
+        c.ctors, c.sels = self.ctors, self.sels
+        c.env.update(extra)
+        return c
+
+    def definition_scope(self, extra):
+        """Context for the body of a defined function."""
+        c = Ctx(self.top, self.funs, top=self.top)
         c.ctors, c.sels = self.ctors, self.sels
         c.env.update(extra)
         return c
@@ -83,7 +94,7 @@ def ev(t, c):  # noqa: C901
         if k is not None:
             return k
         if t in c.funs and not c.funs[t][0]:
-            return ev(c.funs[t][1], c)
+            return ev(c.funs[t][1], c.definition_scope({}))
         if t in c.ctors and not c.ctors[t][1]:
             return ('dt', t)
         raise EvalError(f'unbound symbol {t}')
@@ -123,6 +134,11 @@ def ev(t, c):  # noqa: C901
         if len(t) == 3 and t[1].startswith('bv') and t[1][2:].isdigit():
             return bv(int(t[2]), int(t[1][2:]))
         raise EvalError('bad indexed identifier')
+    if head in ('let', 'forall', 'exists'):
+        if len(t) != 3 or not isinstance(t[1], list) or not all(
+                isinstance(b, list) and len(b) == 2 and isinstance(b[0], str)
+                and const(b[0]) is None for b in t[1]):
+            raise EvalError(f'ill-formed binder list in {head}')
     if head == 'let':
         vals = {b[0]: ev(b[1], c) for b in t[1]}
         return ev(t[2], c.child(vals))
@@ -141,7 +157,7 @@ def ev(t, c):  # noqa: C901
         if len(formals) != len(t) - 1:
             raise EvalError('arity')
         vals = [ev(a, c) for a in t[1:]]
-        return ev(body, c.child(dict(zip(formals, vals))))
+        return ev(body, c.definition_scope(dict(zip(formals, vals))))
     if head in c.ctors:
         return ('dt', head) + tuple(ev(a, c) for a in t[1:])
     if head in c.sels:
